@@ -1557,7 +1557,11 @@ def remove_redundant_transpose_pairs_ir(graph: ir.Graph) -> None:
                 if isinstance(t_out, ir.Value) and isinstance(t_src, ir.Value):
                     trans_in_map[t_out] = t_src
 
-            for node in elem_nodes:
+            # Walk in graph (topological) order: a node's refreshed shape is
+            # derived from its producers' shapes, which must be refreshed first.
+            for node in nodes:
+                if node not in elem_nodes:
+                    continue
                 ins = _node_inputs(node)
                 for idx, iv in enumerate(ins):
                     if iv in trans_in_map:
